@@ -14,6 +14,7 @@ import (
 	"os/exec"
 	"path/filepath"
 	"sort"
+	"strconv"
 	"strings"
 	"sync"
 	"syscall"
@@ -338,7 +339,14 @@ type workerLine struct {
 func runWorker(e Engine, mode string, cases []*Case, from int) {
 	w := bufio.NewWriter(os.Stdout)
 	enc := json.NewEncoder(w)
-	for i := from; i < len(cases); i++ {
+	// a worker executes a bounded number of cases and then exits cleanly; the supervisor starts the next one. This keeps what the
+	// code under test (or the engine) accumulates per process - open descriptors, leaked goroutines, garbage - from building up
+	// over a long run and failing a late case for a reason that has nothing to do with that case.
+	batch := 150
+	if v, err := strconv.Atoi(os.Getenv("HX_WORKER_BATCH")); err == nil && v > 0 {
+		batch = v
+	}
+	for i := from; i < len(cases) && i < from+batch; i++ {
 		ii := i
 		enc.Encode(workerLine{Start: &ii, I: i})
 		w.Flush()
@@ -413,10 +421,15 @@ func supervise(out string, cases []*Case, caseTimeout int, record func(int, *Cas
 	f.Close()
 	next := 0
 	retried := map[int]bool{}
+	failedBefore := false
 	for next < len(cases) {
 		args := append([]string{}, os.Args[1:]...)
 		args = append(args, "-cases", all, "-worker", "-from", fmt.Sprint(next))
 		cmd := exec.Command(os.Args[0], args...)
+		if failedBefore {
+			// engines may bound the remaining cases more tightly once the run already carries a violation (a worker died or hung)
+			cmd.Env = append(os.Environ(), "HX_AFTER_FAILURE=1")
+		}
 		stdout, _ := cmd.StdoutPipe()
 		tail := &tailBuf{}
 		cmd.Stderr = tail
@@ -488,6 +501,7 @@ func supervise(out string, cases []*Case, caseTimeout int, record func(int, *Cas
 			continue
 		}
 		if started >= 0 {
+			failedBefore = true
 			what := fmt.Sprintf("the process running the implementation died while executing this case (%v): %s", werr, lastLines(tail.Head()+"\n"+tail.String(), 12))
 			if hung {
 				what = fmt.Sprintf("no progress for %d s while executing this case (hang / deadlock / livelock); worker killed", caseTimeout)
